@@ -23,10 +23,10 @@ theorem C13_sort_rotation_bound (known available : List String) (s : List Topo.T
     Topo.settle known available 0 s = none := rfl
 
 /-- a definition that depends on itself is reported (cycle), never sorted forever -/
-theorem C13_self_reference_reported : Topo.sort [⟨"A", ["A"]⟩] = none := by decide
+theorem C13_self_reference_reported : Topo.sort [⟨"A", ["A"], false⟩] = none := by decide
 
 /-- a definition cycle of any two names is reported -/
-theorem C13_two_cycle_reported : Topo.sort [⟨"A", ["B"]⟩, ⟨"B", ["A"]⟩] = none := by decide
+theorem C13_two_cycle_reported : Topo.sort [⟨"A", ["B"], false⟩, ⟨"B", ["A"], false⟩] = none := by decide
 
 /-- the expression evaluator is total: a value or one of three designed errors -/
 theorem C13_expr_total (env : String → Option Int) (e : Expr.Ast) :
@@ -44,11 +44,22 @@ theorem C13_huge_shift_is_error (a b : Int) (h : b > 64) : Expr.binop .shl a b =
 
 
 /-- the rotation bound is never hit by an acyclic definition set: a ModelError "cyclic dependency"
-    is raised only for sets that do have a cycle -/
+    is raised only for sets that do have a cycle.  The list may hold Include nodes anywhere; the
+    rank condition is asked of the definitions (non-Include nodes) only -/
 theorem C13_sort_succeeds_on_acyclic (g : List Topo.TNode) (rank : String → Nat)
-    (hr : ∀ n ∈ g, ∀ d ∈ n.deps, d ∈ g.map (·.name) → rank d < rank n.name) :
+    (hr : ∀ n ∈ g, n.incl = false → ∀ d ∈ n.deps, d ∈ Topo.availableOf g → rank d < rank n.name) :
     Topo.sort g ≠ none := by
   obtain ⟨r, h⟩ := Topo.sort_complete' g rank hr
   rw [h]; simp
 
+/-- the rotation bound is never the REASON of a report: a position that is settled with any number of
+    rotations is settled within `len(suffix)` of them, so a larger bound reports the same cycles -/
+theorem C13_rotation_bound_exact (known available : List String) (f f' : Nat) (s r : List Topo.TNode)
+    (hs : Topo.settle known available f s = some r) (hf : s.length < f') :
+    Topo.settle known available f' s = some r :=
+  C15.settle_fuel known available f f' s r hs hf
+
 end Prophy.C13
+
+#print axioms Prophy.C13.C13_sort_succeeds_on_acyclic
+#print axioms Prophy.C13.C13_sort_rotation_bound
